@@ -10,6 +10,7 @@ Deviations (all switchable):
  3. ``waiver``: a missing required property whose schema declares a default
     (directly or through a composition keyword) makes ``required`` undecided.
 """
+from urllib.parse import unquote
 import re
 from fractions import Fraction
 
@@ -54,11 +55,71 @@ def k_one(vals):
 
 
 class Opts:
-    def __init__(self, int_is_int=True, formats=None, waiver=True, store=None):
+    def __init__(self, int_is_int=True, formats=None, waiver=True, store=None, regex="python"):
         self.int_is_int = int_is_int
         self.formats = formats or {}
         self.waiver = waiver
         self.store = store or {}
+        # "ecma": patterns are read as ECMA 262 regular expressions (what Draft 6 prescribes); "python": as
+        # Python's `re` reads them (what statham, and jsonschema, do)
+        self.regex = regex
+
+
+_ECMA_CACHE = {}
+_ECMA_CLASS = {"d": "0-9", "w": "A-Za-z0-9_"}
+_ECMA_SPACE = "\t\n\x0b\x0c\r \xa0\u1680\u2000-\u200a\u2028\u2029\u202f\u205f\u3000\ufeff"
+
+
+def ecma_to_python(pattern):
+    """Rewrite an ECMA 262 (non-unicode-mode) pattern so that Python's `re` gives it the ECMA meaning where the two
+    dialects differ on ordinary input: `$` (end of input only - not before a final newline), `.` (also excludes
+    CR, U+2028, U+2029), `\\d \\w \\s` and their negations (ASCII digits / word characters, ECMA white space)."""
+    if pattern in _ECMA_CACHE:
+        return _ECMA_CACHE[pattern]
+    out, i, in_class = [], 0, False
+    while i < len(pattern):
+        c = pattern[i]
+        if c == "\\" and i + 1 < len(pattern):
+            e = pattern[i + 1]
+            if e in "dw":
+                out.append(_ECMA_CLASS[e] if in_class else "[" + _ECMA_CLASS[e] + "]")
+            elif e in "DW" and not in_class:
+                out.append("[^" + _ECMA_CLASS[e.lower()] + "]")
+            elif e == "s":
+                out.append(_ECMA_SPACE if in_class else "[" + _ECMA_SPACE + "]")
+            elif e == "S" and not in_class:
+                out.append("[^" + _ECMA_SPACE + "]")
+            else:
+                out.append(pattern[i:i + 2])
+            i += 2
+            continue
+        if in_class:
+            in_class = c != "]"
+            out.append(c)
+        elif c == "[":
+            in_class = True
+            out.append(c)
+            if pattern[i + 1:i + 2] == "^":
+                out.append("^")
+                i += 1
+        elif c == "$":
+            out.append("\\Z")
+        elif c == ".":
+            out.append("[^\\n\\r\\u2028\\u2029]")
+        else:
+            out.append(c)
+        i += 1
+    _ECMA_CACHE[pattern] = "".join(out)
+    return _ECMA_CACHE[pattern]
+
+
+def _search(pattern, string, opts):
+    if opts is not None and opts.regex == "ecma":
+        try:
+            return re.search(ecma_to_python(pattern), string) is not None
+        except re.error:
+            pass
+    return re.search(pattern, string) is not None
 
 
 class Trace:
@@ -134,7 +195,8 @@ def resolve_ref(ref, base, opts):
     doc = doc or base
     target = opts.store[doc]
     for part in [p for p in pointer.split("/") if p != ""]:
-        part = part.replace("~1", "/").replace("~0", "~")
+        # RFC 6901 section 6: a pointer in a URI fragment is percent-decoded first, then ~1 and ~0 are unescaped
+        part = unquote(part).replace("~1", "/").replace("~0", "~")
         if isinstance(target, list):
             target = target[int(part)]
         else:
@@ -193,7 +255,7 @@ def validate(schema, value, opts=None, trace=None, base=None, _depth=0):
         if "maxLength" in s:
             note("maxLength", len(value) <= s["maxLength"])
         if "pattern" in s:
-            note("pattern", re.search(s["pattern"], value) is not None)
+            note("pattern", _search(s["pattern"], value, opts))
         if "format" in s and s["format"] in opts.formats:
             note("format", bool(opts.formats[s["format"]](value)))
     # -------------------------------------------------------------- array
@@ -258,7 +320,7 @@ def validate(schema, value, opts=None, trace=None, base=None, _depth=0):
                     rec(sub, v)
                     for k, v in value.items()
                     for pat, sub in patterns.items()
-                    if re.search(pat, k)
+                    if _search(pat, k, opts)
                 ),
             )
         if "additionalProperties" in s:
@@ -266,7 +328,7 @@ def validate(schema, value, opts=None, trace=None, base=None, _depth=0):
                 k
                 for k in value
                 if k not in props
-                and not any(re.search(pat, k) for pat in patterns)
+                and not any(_search(pat, k, opts) for pat in patterns)
             ]
             note(
                 "additionalProperties",
